@@ -367,3 +367,159 @@ package ledger
 //@ func (l IFinalityLedger) CancelDelFinality(key)
 //@   modifies memItems.removedKeys, allelems(memItems.removedKeys)
 //@   ensures result == nil
+
+// ---- the stake controller's three ledgers, by field (role contracts): region discipline (C06) and the
+// shape of the items they hand out ----------------------------------------------------------------
+
+//@ func (l ILedger_delegateeLedger) Get(key)
+//@   requires !cons_ok                                                                     [C06]
+//@   modifies allmaps(memItems.gotItems), itemkey, itemenc
+//@   allocates Delegatee, Stake, BlockMarker, uint256.Int
+//@   ensures items_same() && ((result1 == nil) <==> (result0 != nil))
+//@   ensures result1 == nil ==> wf_delg(result0) && itemkey[result0] == key
+//@   ensures result1 == nil ==> result0 == delgof(l, key, 0)
+
+//@ func (l IFinalityLedger_delegateeLedger) GetFinality(key)
+//@   requires cons_ok                                                                     [C06]
+//@   modifies allmaps(memItems.gotItems), itemkey, itemenc
+//@   allocates Delegatee, Stake, BlockMarker, uint256.Int
+//@   ensures items_same() && ((result1 == nil) <==> (result0 != nil))
+//@   ensures result1 == nil ==> wf_delg(result0) && itemkey[result0] == key
+//@   ensures result1 == nil ==> result0 == delgof(l, key, 1)
+
+//@ func (l ILedger_delegateeLedger) Set(item)
+//@   requires !cons_ok                                                                     [C06]
+//@   requires wf_delg(item)
+//@   modifies allmaps(memItems.gotItems)
+//@   ensures result == nil
+
+//@ func (l IFinalityLedger_delegateeLedger) SetFinality(item)
+//@   requires cons_ok                                                                     [C06]
+//@   requires wf_delg(item)
+//@   modifies allmaps(memItems.gotItems)
+//@   ensures result == nil
+
+//@ func (l ILedger_delegateeLedger) Del(key)
+//@   requires !cons_ok                                                                     [C06]
+//@   modifies allmaps(memItems.gotItems), memItems.removedKeys, allelems(memItems.removedKeys), itemkey, itemenc
+//@   allocates Delegatee, Stake, BlockMarker, uint256.Int
+//@   ensures items_same() && ((result1 == nil) <==> (result0 != nil))
+
+//@ func (l IFinalityLedger_delegateeLedger) DelFinality(key)
+//@   requires cons_ok                                                                     [C06]
+//@   modifies allmaps(memItems.gotItems), memItems.removedKeys, allelems(memItems.removedKeys), itemkey, itemenc
+//@   allocates Delegatee, Stake, BlockMarker, uint256.Int
+//@   ensures items_same() && ((result1 == nil) <==> (result0 != nil))
+
+//@ func (l ILedger_delegateeLedger) CancelSet(key)
+//@   requires !cons_ok                                                                     [C06]
+//@   modifies allmaps(memItems.gotItems)
+//@   ensures result == nil
+
+//@ func (l IFinalityLedger_delegateeLedger) CancelSetFinality(key)
+//@   requires cons_ok                                                                     [C06]
+//@   modifies allmaps(memItems.gotItems)
+//@   ensures result == nil
+
+//@ func (l ILedger_frozenLedger) Get(key)
+//@   requires !cons_ok                                                                     [C06]
+//@   modifies allmaps(memItems.gotItems), itemkey, itemenc
+//@   allocates Stake, Stake, BlockMarker, uint256.Int
+//@   ensures items_same() && ((result1 == nil) <==> (result0 != nil))
+//@   ensures result1 == nil ==> wf_stake(result0) && itemkey[result0] == key
+
+//@ func (l IFinalityLedger_frozenLedger) GetFinality(key)
+//@   requires cons_ok                                                                     [C06]
+//@   modifies allmaps(memItems.gotItems), itemkey, itemenc
+//@   allocates Stake, Stake, BlockMarker, uint256.Int
+//@   ensures items_same() && ((result1 == nil) <==> (result0 != nil))
+//@   ensures result1 == nil ==> wf_stake(result0) && itemkey[result0] == key
+
+//@ func (l ILedger_frozenLedger) Set(item)
+//@   requires !cons_ok                                                                     [C06]
+//@   requires wf_stake(item)
+//@   modifies allmaps(memItems.gotItems)
+//@   ensures result == nil
+
+//@ func (l IFinalityLedger_frozenLedger) SetFinality(item)
+//@   requires cons_ok                                                                     [C06]
+//@   requires wf_stake(item)
+//@   modifies allmaps(memItems.gotItems)
+//@   ensures result == nil
+
+//@ func (l ILedger_frozenLedger) Del(key)
+//@   requires !cons_ok                                                                     [C06]
+//@   modifies allmaps(memItems.gotItems), memItems.removedKeys, allelems(memItems.removedKeys), itemkey, itemenc
+//@   allocates Stake, Stake, BlockMarker, uint256.Int
+//@   ensures items_same() && ((result1 == nil) <==> (result0 != nil))
+
+//@ func (l IFinalityLedger_frozenLedger) DelFinality(key)
+//@   requires cons_ok                                                                     [C06]
+//@   modifies allmaps(memItems.gotItems), memItems.removedKeys, allelems(memItems.removedKeys), itemkey, itemenc
+//@   allocates Stake, Stake, BlockMarker, uint256.Int
+//@   ensures items_same() && ((result1 == nil) <==> (result0 != nil))
+
+//@ func (l ILedger_frozenLedger) CancelSet(key)
+//@   requires !cons_ok                                                                     [C06]
+//@   modifies allmaps(memItems.gotItems)
+//@   ensures result == nil
+
+//@ func (l IFinalityLedger_frozenLedger) CancelSetFinality(key)
+//@   requires cons_ok                                                                     [C06]
+//@   modifies allmaps(memItems.gotItems)
+//@   ensures result == nil
+
+//@ func (l ILedger_rewardLedger) Get(key)
+//@   requires !cons_ok                                                                     [C06]
+//@   modifies allmaps(memItems.gotItems), itemkey, itemenc
+//@   allocates Reward, Stake, BlockMarker, uint256.Int
+//@   ensures items_same() && ((result1 == nil) <==> (result0 != nil))
+//@   ensures result1 == nil ==> wf_rwd(result0) && itemkey[result0] == key
+//@   ensures result1 == nil ==> result0 == rwdof(l, key, 0)
+
+//@ func (l IFinalityLedger_rewardLedger) GetFinality(key)
+//@   requires cons_ok                                                                     [C06]
+//@   modifies allmaps(memItems.gotItems), itemkey, itemenc
+//@   allocates Reward, Stake, BlockMarker, uint256.Int
+//@   ensures items_same() && ((result1 == nil) <==> (result0 != nil))
+//@   ensures result1 == nil ==> wf_rwd(result0) && itemkey[result0] == key
+//@   ensures result1 == nil ==> result0 == rwdof(l, key, 1)
+
+//@ func (l ILedger_rewardLedger) Set(item)
+//@   requires !cons_ok                                                                     [C06]
+//@   requires wf_rwd(item)
+//@   modifies allmaps(memItems.gotItems)
+//@   ensures result == nil
+
+//@ func (l IFinalityLedger_rewardLedger) SetFinality(item)
+//@   requires cons_ok                                                                     [C06]
+//@   requires wf_rwd(item)
+//@   modifies allmaps(memItems.gotItems)
+//@   ensures result == nil
+
+//@ func (l ILedger_rewardLedger) Del(key)
+//@   requires !cons_ok                                                                     [C06]
+//@   modifies allmaps(memItems.gotItems), memItems.removedKeys, allelems(memItems.removedKeys), itemkey, itemenc
+//@   allocates Reward, Stake, BlockMarker, uint256.Int
+//@   ensures items_same() && ((result1 == nil) <==> (result0 != nil))
+
+//@ func (l IFinalityLedger_rewardLedger) DelFinality(key)
+//@   requires cons_ok                                                                     [C06]
+//@   modifies allmaps(memItems.gotItems), memItems.removedKeys, allelems(memItems.removedKeys), itemkey, itemenc
+//@   allocates Reward, Stake, BlockMarker, uint256.Int
+//@   ensures items_same() && ((result1 == nil) <==> (result0 != nil))
+
+//@ func (l ILedger_rewardLedger) CancelSet(key)
+//@   requires !cons_ok                                                                     [C06]
+//@   modifies allmaps(memItems.gotItems)
+//@   ensures result == nil
+
+//@ func (l IFinalityLedger_rewardLedger) CancelSetFinality(key)
+//@   requires cons_ok                                                                     [C06]
+//@   modifies allmaps(memItems.gotItems)
+//@   ensures result == nil
+
+//@ func ToLedgerKey(s)
+//@   trusted
+//@   pure
+//@   ensures result == lkey(content(s))
